@@ -363,6 +363,9 @@ func (g *Gen) addrRoot(st *State, a *Addr) string {
 	case "field":
 		return fmt.Sprintf("(select %s %s)", g.heapGet(st, a.Heap), a.Base)
 	case "elem":
+		if a.Off != "" {
+			return g.slElem(a.ElemRootT, fmt.Sprintf("(select %s %s)", g.heapGet(st, a.Heap), a.Base), a.Off, a.I)
+		}
 		return fmt.Sprintf("(select (select %s %s) %s)", g.heapGet(st, a.Heap), a.Base, a.Idx)
 	}
 	return g.heapGet(st, a.Heap)
